@@ -217,6 +217,7 @@ type Config struct {
 	Verbose     bool
 	StopOnFirst bool
 	Known       []KnownFinding
+	Property    string
 }
 
 func NewEngine(prog *ssa.Program, pkg *ssa.Package, cfg *Config, solvers []string) *Engine {
